@@ -194,7 +194,7 @@ def oracle(hist, obs):
             return ('after op %d `%s` targets behave %s, the last instructions say %s' % (i, ops[i], row, w), classify(ops[:i + 1], row, w))
         if ids[i] is not None and not head.startswith('panic:') and head != ids[i]:
             return ('op %d `%s` returned mocker %s, expected %s (a repeated lookup continues the live mocker; a cancelled one is replaced)'
-                    % (i, ops[i], head, ids[i]), None)
+                    % (i, ops[i], head, ids[i]), classify_pkg(ops[:i + 1]))
     return None
 
 
@@ -207,17 +207,25 @@ def classify(ops, got, want):
     if len(bad) == 1 and len(t) > 2 and t[2] in ('ret', 'when', 'whenret', 'rets') and g[bad[0]].startswith('k') \
             and any(o.split()[:2] == t[:2] and o.split()[2] == 'apply' for o in ops[:-1] if len(o.split()) > 2):
         return KEY_F7
-    # F14: an ExportFunc op whose effect landed in p1 although the last Pkg(p1) was followed by a var lookup
-    if t[0] == 'xf' and len(bad) <= 2:
-        seen_var = False
-        for o in reversed(ops[:-1]):
-            k = o.split()[0]
-            if k == 'var':
-                seen_var = True
-            elif k == 'pkg':
-                return KEY_F14 if (seen_var and o.split()[1] == 'p1') else None
-            elif k != 'reset':
-                return None
+    if len(bad) <= 2:
+        return classify_pkg(ops)
+    return None
+
+
+def classify_pkg(ops):
+    """F14: an ExportFunc op that resolved its name in p1 although the last Pkg(p1) was followed by a var lookup."""
+    t = ops[-1].split()
+    if t[0] != 'xf':
+        return None
+    seen_var = False
+    for o in reversed(ops[:-1]):
+        k = o.split()[0]
+        if k == 'var':
+            seen_var = True
+        elif k == 'pkg':
+            return KEY_F14 if (seen_var and o.split()[1] == 'p1') else None
+        elif k != 'reset':
+            return None
     return None
 
 
@@ -411,7 +419,7 @@ def shrink(hist):
 def run(tier):
     out = C.Outcome('C12', tier)
     rng = C.Rng(C.seed()).fork('C12')
-    proof = C.prove('C12', leanchecker=(tier == 'thorough'))
+    proof = C.prove('C12', extra_targets=('GoomVerif.Findings.C12F7',), leanchecker=(tier == 'thorough'))
     hists = gen_all(tier, rng)
     lines = ['c12.hist ' + h for h in hists]
     impl = run_impl(lines, 'c12')
